@@ -3,11 +3,12 @@
 from __future__ import annotations
 
 import ast
-from typing import Dict, List, Set
+import itertools
+from typing import Dict, List, Optional, Set
 
-from ..astutil import calls_in, dotted, name_stores, unparse, walk_local, walk_stmts
+from ..astutil import attr_stores as _attr_stores, test_atoms, nested_functions, calls_in, dotted, name_stores, unparse, walk_local, walk_stmts
 from ..cfg import no_exc
-from ..report import Registry, sub
+from ..report import Registry, chain, sub
 from ._helpers_rules_d import attr_store_nodes, call_nodes, callee_is, const_is, guard_atom_set, qualname
 
 R = Registry(
@@ -60,20 +61,79 @@ def r1(ctx):
     w = g.must_pass(mod, [g.exit], adds, edge_ok=lambda a, b, l: l != "exc" and not (a in id_tests and l == "false"))
     ctx.check(w is None and bool(adds), f"{f.key}:enters-modified-set", "a path marks a state modified without adding it to its identity map's _modified set",
               "instance_dict._modified.add(self) whenever an identity map is linked", f.loc, w)
-    # entry condition: also taken for an attached state that has no strong reference yet
-    t = None
-    for n in g.nodes:
-        if n.kind == "test" and any(b in mod or mod[0] in g.reachable([b], avoid=[n.id]) for b, lab in g.succ[n.id] if lab == "true"):
-            if "modified" in unparse(n.stmt.test):
-                t = n.stmt.test
-    good = False
-    if isinstance(t, ast.BoolOp) and isinstance(t.op, ast.Or):
-        parts = [unparse(v) for v in t.values]
-        has_not_mod = "not self.modified" in parts
-        has_attached = any(isinstance(v, ast.BoolOp) and isinstance(v.op, ast.And) and {unparse(x) for x in v.values} == {"self.session_id", "self._strong_obj is None"} for v in t.values)
-        good = has_not_mod and has_attached
-    ctx.check(good, f"{f.key}:entry-condition", "the block is not entered for `not modified` OR `attached without strong reference`",
-              "(session_id and _strong_obj is None) or not modified", f.loc)
+    # entry condition: also taken for an attached state that has no strong reference yet.  Decided as a
+    # boolean function of the three facts (modified, attached, no strong reference); locals bound once are
+    # inlined, anything else in the test is a free variable (the implication must hold for all its values).
+    guards = [(t, pol) for t, pol in g.edge_guards(mod[0])]
+    env = _single_bindings(f.node)
+    relevant = [(t, pol) for t, pol in guards if _FACTS & _atoms_of(t, env)]
+    # (dominating tests that mention none of the three facts are about something else and are ignored)
+    free = sorted({a for t, _ in relevant for a in _atoms_of(t, env)} | _FACTS)
+    missing = []
+    for bits in itertools.product((False, True), repeat=len(free)):
+        val = dict(zip(free, bits))
+        entered = all(_truth(t, val, env) == pol for t, pol in relevant)
+        if entered:
+            continue
+        if not val["modified"] and "an unmodified state" not in missing:
+            missing.append("an unmodified state")
+        if val["attached"] and val["no-strong-ref"] and val["modified"] and "a modified attached state that has no strong reference" not in missing:
+            missing.append("a modified attached state that has no strong reference")
+    ctx.check(not missing, f"{f.key}:entry-condition",
+              f"the block that marks the state modified and takes the strong reference is skipped for {' and for '.join(missing)} "
+              f"(guard: {' and '.join(('' if pol else 'not ') + '(' + unparse(t) + ')' for t, pol in relevant)}): a state left "
+              f"modified+attached without _strong_obj (e.g. after an error inside the block) is never repaired",
+              "entered whenever `not modified` or `attached and _strong_obj is None`", f.loc)
+
+
+_FACTS = {"modified", "attached", "no-strong-ref"}
+
+
+def _single_bindings(fn) -> Dict[str, ast.expr]:
+    by = {}
+    for n, v, st in name_stores(fn):
+        by.setdefault(n, []).append(v)
+    return {n: vs[0] for n, vs in by.items() if len(vs) == 1 and vs[0] is not None}
+
+
+def _fact(e):
+    """(fact name, polarity) for an atom about self, or None."""
+    if isinstance(e, ast.Attribute) and dotted(e.value) == "self":
+        if e.attr == "modified":
+            return ("modified", True)
+        if e.attr == "session_id":
+            return ("attached", True)
+    if isinstance(e, ast.Compare) and len(e.ops) == 1 and dotted(e.left) == "self._strong_obj" and const_is(e.comparators[0], None):
+        if isinstance(e.ops[0], ast.Is):
+            return ("no-strong-ref", True)
+        if isinstance(e.ops[0], ast.IsNot):
+            return ("no-strong-ref", False)
+    return None
+
+
+def _atoms_of(e, env, depth=0) -> Set[str]:
+    if isinstance(e, ast.BoolOp):
+        return set().union(*[_atoms_of(v, env, depth) for v in e.values])
+    if isinstance(e, ast.UnaryOp) and isinstance(e.op, ast.Not):
+        return _atoms_of(e.operand, env, depth)
+    if isinstance(e, ast.Name) and e.id in env and depth < 4:
+        return _atoms_of(env[e.id], env, depth + 1)
+    fa = _fact(e)
+    return {fa[0]} if fa else {"?" + unparse(e)}
+
+
+def _truth(e, val, env, depth=0) -> bool:
+    if isinstance(e, ast.BoolOp):
+        vs = [_truth(v, val, env, depth) for v in e.values]
+        return all(vs) if isinstance(e.op, ast.And) else any(vs)
+    if isinstance(e, ast.UnaryOp) and isinstance(e.op, ast.Not):
+        return not _truth(e.operand, val, env, depth)
+    if isinstance(e, ast.Name) and e.id in env and depth < 4:
+        return _truth(env[e.id], val, env, depth + 1)
+    fa = _fact(e)
+    if fa:
+        return val[fa[0]] == fa[1]
+    return val["?" + unparse(e)]
 
 
 # writers of _strong_obj, frozen with reasons (T-OWN)
@@ -203,6 +263,111 @@ def r4(ctx):
     ctx.check(bool(disc), f"{rem.key}:removed-states-leave-set", "a state removed from the identity map stays in _modified", "self._modified.discard(state)", rem.loc)
 
 
+def _block_and_index(pm, st):
+    """(list of statements that contains st, index)"""
+    par = pm.get(st)
+    for fld in ("body", "orelse", "finalbody"):
+        blk = getattr(par, fld, None)
+        if isinstance(blk, list) and st in blk:
+            return blk, blk.index(st)
+    return None, -1
+
+
+def _fresh_state(pm, st, recv: str) -> Optional[str]:
+    """Is `recv` (a local) bound, earlier in the same block, to the state of an instance created right there
+    (`<manager>.new_instance()`): such a state has never been modified.  Returns a description or None."""
+    blk, i = _block_and_index(pm, st)
+    if blk is None:
+        return None
+
+    def last_binding(name, before):
+        for k in range(before - 1, -1, -1):
+            s2 = blk[k]
+            if isinstance(s2, ast.Assign) and any(isinstance(t, ast.Name) and t.id == name for t in s2.targets):
+                return k, s2.value
+            if any(n == name for n, _, _ in name_stores(s2)):
+                return k, None
+        return -1, None
+
+    k, v = last_binding(recv, i)
+    if not (isinstance(v, ast.Call) and len(v.args) == 1 and isinstance(v.args[0], ast.Name)):
+        return None
+    inst = v.args[0].id
+    k2, v2 = last_binding(inst, k)
+    if isinstance(v2, ast.Call) and isinstance(v2.func, ast.Attribute) and v2.func.attr == "new_instance":
+        return f"{recv} = {unparse(v)}; {inst} = {unparse(v2)}"
+    return None
+
+
+@R.rule("C48-R5", floor=2, template="T-PATH",
+        desc="every site that attaches a state to a session (`<state>.session_id = <non-None>`): the state is freshly "
+             "created there, or the strong reference of an already-modified state is (re)established before ANY way "
+             "out of the function after the store -- in particular before listeners, which may raise")
+def r5(ctx):
+    n_sites = 0
+    for m in ctx.index.all_modules():
+        if "session_id" not in m.source or not m.relpath.startswith("orm/"):
+            continue
+        pm = m.parents()
+        scopes = []
+        for fn in sorted(ctx.index.all_functions(m), key=lambda x: x.key):
+            scopes.append((fn.key, fn.node, fn))
+            for nm, nf in sorted(nested_functions(fn.node).items()):
+                scopes.append((f"{fn.key}.<locals>.{nm}", nf, fn))
+        for skey, snode, fn in scopes:
+            stores = [(d, st) for d, t, st in _attr_stores(snode) if d.endswith(".session_id")
+                      and isinstance(st, ast.Assign) and not const_is(st.value, None)]
+            if not stores:
+                continue
+            ctx.functions_analysed.add(fn.key)
+            g = ctx.cfg(snode)
+            for d, st in stores:
+                recv = d.rsplit(".", 1)[0]
+                n_sites += 1
+                key = f"{skey}:attach[{recv}]:strong-reference-before-any-exit"
+                loc = f"{m.path}:{st.lineno}"
+                fresh = _fresh_state(pm, st, recv)
+                if fresh:
+                    ctx.ok(key, f"state of an instance created right there (never modified): {fresh}")
+                    continue
+                strong = attr_store_nodes(g, "_strong_obj", lambda v: not const_is(v, None), recv)
+                want = {(f"{recv}.modified", True), (f"{recv}._strong_obj is None", True)}
+                # the tests that decide the re-establishing store; once one of them is evaluated the outcome
+                # is settled (true branch: the store follows with nothing in between, checked below)
+                tests = set()
+                settled = set()
+                for sn in strong:
+                    if not want <= guard_atom_set(g, sn):
+                        continue
+                    settled.add(sn)
+                    for t, pol in g.edge_guards(sn):
+                        if pol and set(test_atoms(t, True)) & want:
+                            tests.update(tn.id for tn in g.nodes if tn.kind == "test" and tn.stmt.test is t)
+                # once such a test has come out true, nothing but further such tests stands before the store
+                for tn in sorted(tests):
+                    nxt = [b for b, lab in g.succ[tn] if lab == "true" and b not in settled and b not in tests]
+                    if nxt and g.must_pass(nxt, [g.exit, g.raise_exit], settled | tests) is not None:
+                        tests = set()
+                        break
+                if not tests:
+                    ctx.violation(key, f"`{unparse(st)}` attaches a state that may already be modified, and the function never "
+                                       f"gives it a strong reference under `{recv}.modified and {recv}._strong_obj is None`", loc)
+                    continue
+                here = g.nodes_for(st)
+                w = g.must_pass(here, [g.exit, g.raise_exit], tests)
+                if w is not None:
+                    # also fine: the reference was settled on every path BEFORE the store
+                    if all(g.always_preceded(h, tests) is None for h in here):
+                        w = None
+                ctx.check(w is None, key,
+                          f"after `{unparse(st)}` the function can be left (a listener / callee raising) before the strong "
+                          f"reference of an already-modified state is established: the state is attached and dirty but only "
+                          f"weakly referenced, so its pending change is lost when the application drops the object",
+                          "every way out after the attach passes the `modified and _strong_obj is None` re-establishing test",
+                          loc, w)
+    ctx.require(n_sites >= 2, f"only {n_sites} attach site(s) found (expected Session._after_attach and the loader)")
+
+
 # ---------------------------------------------------------------------- self-test battery
 R.mutant("modified-event-strong-ref-when-unattached", STATE, sub("            if self.session_id:\n                self._strong_obj = inst\n\n                # if identity", "            if not self.session_id:\n                self._strong_obj = inst\n            else:\n                # if identity"), "C48-R1")
 R.mutant("modified-event-strong-ref-only-first", STATE, sub("            if self.session_id:\n                self._strong_obj = inst\n\n                # if identity map already had modified objects,\n                # assume autobegin already occurred, else check\n                # for autobegin\n                if not has_modified:\n",
@@ -220,3 +385,67 @@ R.mutant("identity-map-stores-object", IDENT, sub("        self._dict[key] = sta
 # benign
 R.mutant("benign-rename-inst", STATE, sub("            inst = self.obj()\n            if self.session_id:\n                self._strong_obj = inst\n", "            target = self.obj()\n            inst = target\n            if self.session_id:\n                self._strong_obj = target\n"), None)
 R.mutant("benign-expire-reorder", STATE, sub("        self._strong_obj = None\n\n        if \"_pending_mutations\" in self.__dict__:\n            del self.__dict__[\"_pending_mutations\"]\n", "        if \"_pending_mutations\" in self.__dict__:\n            del self.__dict__[\"_pending_mutations\"]\n\n        self._strong_obj = None\n"), None)
+
+# ---- seeds C48_1 / C48_2 and neighbours (str-u)
+_ENTRY = "        if (self.session_id and self._strong_obj is None) or not self.modified:\n"
+_STRONG_EARLY = (
+    "            inst = self.obj()\n"
+    "            if self.session_id:\n"
+    "                self._strong_obj = inst\n"
+    "\n"
+)
+_AUTOBEGIN_TAIL = (
+    "                        if session._transaction is None:\n"
+    "                            session._autobegin_t()\n"
+    "\n"
+)
+# seed 1: entry condition narrowed AND the strong reference taken only after the (raising) autobegin
+R.mutant("modified-event-ref-after-autobegin-no-repair", STATE, chain(
+    sub(_ENTRY, "        if not self.modified:\n"),
+    sub(_STRONG_EARLY, "            inst = self.obj()\n            if self.session_id:\n"),
+    sub(_AUTOBEGIN_TAIL, _AUTOBEGIN_TAIL + "                self._strong_obj = inst\n\n"),
+), "C48-R1")
+R.mutant("modified-event-entry-needs-both", STATE, sub(
+    _ENTRY, "        if (self.session_id and self._strong_obj is None) and not self.modified:\n"), "C48-R1")
+# benign: same boolean function, written through a local / with operands reordered
+R.mutant("benign-entry-condition-through-local", STATE, sub(
+    _ENTRY,
+    "        needs_ref = self._strong_obj is None and self.session_id\n"
+    "        if not self.modified or needs_ref:\n"), None)
+_ATTACH = (
+    "        state.session_id = self.hash_key\n"
+    "        if state.modified and state._strong_obj is None:\n"
+    "            state._strong_obj = obj\n"
+    "        self.dispatch.after_attach(self, state)\n"
+)
+# seed 2: the strong reference of an already-modified state is established after the attach listeners
+R.mutant("attach-strong-ref-after-listeners", SESSION, chain(
+    sub(_ATTACH, "        state.session_id = self.hash_key\n        self.dispatch.after_attach(self, state)\n"),
+    sub("            self.dispatch.transient_to_pending(self, state)\n\n    def __contains__",
+        "            self.dispatch.transient_to_pending(self, state)\n"
+        "        if state.modified and state._strong_obj is None:\n"
+        "            state._strong_obj = obj\n\n    def __contains__"),
+), "C48-R5")
+R.mutant("attach-strong-ref-after-first-listener", SESSION, sub(
+    _ATTACH,
+    "        state.session_id = self.hash_key\n"
+    "        self.dispatch.after_attach(self, state)\n"
+    "        if state.modified and state._strong_obj is None:\n"
+    "            state._strong_obj = obj\n"), "C48-R5")
+R.mutant("loader-attaches-existing-state", "orm/loading.py", sub(
+    "                instance = mapper.class_manager.new_instance()\n",
+    "                instance = mapper.class_manager.new_instance() if refresh_state is None else refresh_state.obj()\n"), "C48-R5")
+# benign: nested spelling of the same guard; reference settled before the attach
+R.mutant("benign-attach-nested-guard", SESSION, sub(
+    _ATTACH,
+    "        state.session_id = self.hash_key\n"
+    "        if state.modified:\n"
+    "            if state._strong_obj is None:\n"
+    "                state._strong_obj = obj\n"
+    "        self.dispatch.after_attach(self, state)\n"), None)
+R.mutant("benign-attach-ref-before-session-id", SESSION, sub(
+    _ATTACH,
+    "        if state.modified and state._strong_obj is None:\n"
+    "            state._strong_obj = obj\n"
+    "        state.session_id = self.hash_key\n"
+    "        self.dispatch.after_attach(self, state)\n"), None)
